@@ -433,6 +433,32 @@ def clash_suite(ctx, conv, pending):
           ctx.violation('no-clash-rejected:' + kind, f'{kind} (no clash) in style {style} raised {res[1]}', S.public(sc))
 
 
+def decl_sequences(ctx, conv, pending):
+  """every sequence of <= 3 declarations of ONE name (param / variable in 3 collections / submodule) in one scope,
+  a sample of length 4, in every rendering: it raises exactly at the first declaration that clashes"""
+  import itertools
+  rng = ctx.rng
+  seqs = [list(k) for n in (1, 2, 3) for k in itertools.product(S.DECL_KINDS, repeat=n)]
+  four = [list(k) for k in itertools.product(S.DECL_KINDS, repeat=4)]
+  seqs += rng.sample(four, 60 if ctx.tier == 'quick' else len(four))
+  ctx.extra['decl_sequences'] = f'all {5 + 25 + 125} sequences of length <= 3 over {S.DECL_KINDS}, {len(seqs) - 155} of length 4'
+  for kinds in seqs:
+    prog = S.decl_sequence_prog(kinds, nested_level=rng.random() < 0.3, other=rng.random() < 0.3)
+    first_bad = S.decl_sequence_expect(kinds)
+    for style in S.styles_for(prog):
+      R = S.Rendered(prog, style)
+      sc = base_sc(prog, style, kind='init', mutable=True, x=rng.randrange(-2, 3), decl_sequence=kinds)
+      o = S.run_scenario(R, sc)
+      pending.append((sc, o))
+      ctx.count('decl_sequence_len', len(kinds))
+      res = o['result']
+      names = S.model_err_names('nameInUse', style, prog)
+      if first_bad is not None and (res[0] != 'err' or res[1] not in names):
+        ctx.violation('name-clash-accepted', f'declarations {kinds} of one name in one scope ({style}): declaration #{first_bad + 1} clashes with an earlier one but init gave {res[:2]}', S.public(sc))
+      elif first_bad is None and res[0] != 'ok':
+        ctx.violation('no-clash-rejected', f'declarations {kinds} of one name in one scope ({style}) are legal (different collections) but init raised {res[1]}', S.public(sc))
+
+
 def flush(ctx, drv, conv, pending):
   reqs = []
   for sc, o in pending:
@@ -544,6 +570,7 @@ def run(ctx):
   excluded_point(ctx, conv, drv)
   pending = []
   clash_suite(ctx, conv, pending)
+  decl_sequences(ctx, conv, pending)
   flush(ctx, drv, conv, pending)
   thorough = ctx.tier == 'thorough'
   for _ in range(30 if not thorough else 300):
